@@ -2,6 +2,10 @@ import PygVerif.Generated
 import PygVerif.Model.Listing
 import PygVerif.Props.C13
 import PygVerif.Props.C04
+import PygVerif.Props.C05
+import PygVerif.Props.C06
+import PygVerif.Props.C07
+import PygVerif.Model.Serve
 /-!
 # C15 — Gopher+ item information is faithful
 -/
@@ -141,5 +145,161 @@ example : gplusBlocks ⟨lit "h", 70⟩ (lit "adm") none
       mimetype := some (lit "text/plain"), size := some 2048, ea := [(lit "ABSTRACT", lit "x\ny")] } =
   some (lit "+INFO: 0a.txt\t/a.txt\th\t70\t+\r\n+ADMIN:\r\n Admin: adm\r\n+VIEWS:\r\n text/plain: <2k>\r\n+ABSTRACT:\r\n x\r\n y\r\n") := by
   decide +kernel
+
+/-! ### end to end: the item a listing shows is the item `!` and `$` describe (Model/Site, Model/Serve) -/
+
+theorem listed_member_entryAt (c : SiteCfg) (st : StatFn) (base name : Str) (k : Node) (e : Entry) (isf : Bool)
+    (h : (childOf c st base name k).entry = some (e, isf)) :
+    dispatch c st (base ++ [47] ++ name) ≠ .notFound ∧ entryAt c st (base ++ [47] ++ name) = some e := by
+  simp only [childOf] at h
+  split at h
+  · simp at h
+  · rename_i hne
+    cases hx : entryAt c st (base ++ [47] ++ name) with
+    | none => rw [hx] at h; simp at h
+    | some x =>
+      rw [hx] at h
+      simp only [Option.map_some, Option.some.injEq, Prod.mk.injEq] at h
+      exact ⟨fun hd => hne hd, by rw [h.1]⟩
+
+/-- what the handler chain hands over for the selector of a listed member is built around the very entry the listing
+    shows: never not-found, and every outcome that carries an entry carries that one -/
+theorem handled_listed_member (c : ServeCfg) (st : StatFn) (base name : Str) (k : Node) (e : Entry) (isf : Bool)
+    (h : (childOf c.site st base name k).entry = some (e, isf)) :
+    match handled c st (base ++ [47] ++ name) with
+    | .notFound _ => False
+    | .menu self _ => self = e
+    | .document x _ => x = e
+    | .page x _ => x = e
+    | .crash => True := by
+  obtain ⟨hne, he⟩ := listed_member_entryAt c.site st base name k e isf h
+  unfold handled
+  cases hd : dispatch c.site st (base ++ [47] ++ name) <;> simp only [he]
+  case notFound => exact hne hd
+  case file => cases st (base ++ [47] ++ name) with
+    | none => trivial
+    | some n => cases n <;> simp
+  case htmlFile => cases st (base ++ [47] ++ name) with
+    | none => trivial
+    | some n => cases n <;> simp
+  all_goals (first | (cases siteEntries c.site st (base ++ [47] ++ name) <;> simp) | simp)
+/-- **`!` on a listed item answers with the listed entry's own blocks** (end to end, Model/Serve): whatever directory
+    of whatever site the plain directory handler lists, a Gopher+ information request for the selector of any entry
+    of that listing — if it is answered at all — is `+-2` followed by `gplusBlocks` of *that same entry*: the one the
+    menu line, the `$` listing and every other protocol's view of the directory are rendered from. -/
+theorem info_request_answers_with_listed_entry (c : ServeCfg) (hu : c.site.dir.umn = false) (st : StatFn) (sel : Str)
+    (es : List Entry) (hd : dispatch c.site st sel = .dir) (h : siteEntries c.site st sel = some es)
+    (e : Entry) (he : e ∈ es) (p : Proto) (hp : Wire.ofProto p = .gopherp) (rq : Parsed)
+    (hsel : rq.selector = e.selector) (hg : rq.gplus = some (lit "!")) (hb : rq.badRequest = false)
+    (hgi : rq.geminiInput = none) (ps : List Piece) (hr : respondParsed c st p rq = some ps) :
+    ∃ b, gplusBlocks c.render.srv c.render.admin none e = some b ∧ ps = [.text (lit "+-2\r\n" ++ b)] := by
+  simp only [siteEntries, hd] at h
+  cases hk : kidsAt st sel with
+  | none => simp [hk] at h
+  | some kids =>
+    simp only [hk, Option.bind_some] at h
+    obtain ⟨ch, hch, b, hent, _⟩ := Pyg.Props.C07.plain_nothing_else c.site.dir hu sel _ es h e he
+    obtain ⟨⟨n, k⟩, _, rfl⟩ := List.mem_map.mp hch
+    have hs := (Pyg.Props.C05.listed_member_is_served c.site st _ n k e b hent).1
+    have hm := handled_listed_member c st _ n k e b hent
+    rw [← hs, ← hsel] at hm
+    unfold respondParsed at hr
+    simp only [hb, hgi, hp, hg, Bool.false_eq_true, if_false, Option.isSome_none, beq_self_eq_true, if_true] at hr
+    cases hh : handled c st rq.selector with
+    | notFound m => simp [hh] at hm
+    | crash => simp [hh] at hr
+    | menu self es' =>
+      simp only [hh] at hm hr; subst hm
+      cases hb' : gplusBlocks c.render.srv c.render.admin none self with
+      | none => simp [hb'] at hr
+      | some bl => exact ⟨bl, rfl, by simpa [hb'] using hr.symm⟩
+    | document x d =>
+      simp only [hh] at hm hr; subst hm
+      cases hb' : gplusBlocks c.render.srv c.render.admin none x with
+      | none => simp [hb'] at hr
+      | some bl => exact ⟨bl, rfl, by simpa [hb'] using hr.symm⟩
+    | page x t =>
+      simp only [hh] at hm hr; subst hm
+      cases hb' : gplusBlocks c.render.srv c.render.admin none x with
+      | none => simp [hb'] at hr
+      | some bl => exact ⟨bl, rfl, by simpa [hb'] using hr.symm⟩
+/-- ... and its `+INFO` line is the line the plain Gopher menu of the directory shows for the entry -/
+theorem info_line_is_the_directory_menu_line (c : ServeCfg) (hu : c.site.dir.umn = false) (st : StatFn) (sel : Str)
+    (es : List Entry) (hd : dispatch c.site st sel = .dir) (h : siteEntries c.site st sel = some es)
+    (e : Entry) (he : e ∈ es) (hno : e.ea.any (·.1 == lit "INFO") = false)
+    (p : Proto) (hp : Wire.ofProto p = .gopherp) (rq : Parsed)
+    (hsel : rq.selector = e.selector) (hg : rq.gplus = some (lit "!")) (hb : rq.badRequest = false)
+    (hgi : rq.geminiInput = none) (ps : List Piece) (hr : respondParsed c st p rq = some ps) :
+    ∃ line b, gopher0Line c.render.srv e = some line ∧ ps = [.text (lit "+-2\r\n" ++ b)] ∧ lit "+INFO: " ++ line <+: b := by
+  obtain ⟨b, hb', hps⟩ := info_request_answers_with_listed_entry c hu st sel es hd h e he p hp rq hsel hg hb hgi ps hr
+  obtain ⟨line, hl, hpre⟩ := info_is_menu_line c.render.srv c.render.admin none e b hno hb'
+  exact ⟨line, b, hl, hps, hpre⟩
+
+/-- the hypotheses are met: a directory `/d` holding `a.txt`, claimed by the plain handler; `!` for `/d/a.txt` is answered
+    (the listing itself sorts with `List.mergeSort`, which the kernel does not unfold: that `/d` lists `a.txt` is what the
+    site correspondence runs on every check) -/
+def exSite : SiteCfg :=
+  { forbidden := Generated.forbidden, eaexts := [], defaultMime := lit "text/plain", gophermap := false,
+    dir := { ignore := [], extstrip := lit "none", umn := false },
+    guess := fun _ => (some (lit "text/plain"), none), typeOf := fun _ => lit "0", strip := fun n => n }
+def exServe : ServeCfg :=
+  { site := exSite, waptop := lit "/wap", protos := [],
+    render := { srv := { name := lit "h", port := 70 }, iconmapping := [], waptop := lit "/wap", accesskeys := [], queryPrefix := [],
+                admin := lit "adm", modDate := fun _ => none, abstractHeaders := false, abstractEntries := lit "never" } }
+def exTree : Node := .dir [(lit "d", .dir [(lit "a.txt", .file (lit "hello\n"))])]
+
+example : dispatch exSite (statAt exTree) (lit "/d") = .dir ∧
+    ((respondParsed exServe (statAt exTree) .gopherp { selector := lit "/d/a.txt", search := none, gplus := some (lit "!") }).map
+        fun ps => flattenPieces ps) =
+      some (lit "+-2\r\n+INFO: 0a.txt\t/d/a.txt\th\t70\t+\r\n+ADMIN:\r\n Admin: adm\r\n+VIEWS:\r\n text/plain: <0k>\r\n") := by decide +kernel
+theorem gplusFix_idem (e : Entry) : gplusFix (gplusFix e) = gplusFix e := by
+  unfold gplusFix
+  split
+  · rename_i h
+    have : ((some (lit "application/gopher+-menu") : Option Str) == some (lit "application/gopher-menu")) = false := by decide
+    simp only [this, Bool.false_and, Bool.false_eq_true, if_false]
+  · simp
+
+theorem gplusBlocks_fix (srv : ServerId) (admin : Str) (md : Option Str) (e : Entry) :
+    gplusBlocks srv admin md (gplusFix e) = gplusBlocks srv admin md e := by
+  unfold gplusBlocks; rw [gplusFix_idem]
+
+/-- every entry of the rendered sequence contributes its own rendering, as a contiguous piece of the output -/
+theorem renderSeq_gplus_mem (c : RenderCfg) (l : List Entry) (st : WapState) (out : Str)
+    (h : renderSeq c .gplusDir st l = some out) (e : Entry) (he : e ∈ l) :
+    ∃ b pre post, gplusBlocks c.srv c.admin (e.mtime.bind c.modDate) e = some b ∧ out = pre ++ b ++ post := by
+  induction l generalizing out with
+  | nil => simp at he
+  | cons x xs ih =>
+    unfold renderSeq at h
+    simp only at h
+    cases hx : gplusBlocks c.srv c.admin (x.mtime.bind c.modDate) x with
+    | none => simp [hx] at h
+    | some a =>
+      cases hr : renderSeq c .gplusDir st xs with
+      | none => simp [hx, hr] at h
+      | some r =>
+        simp only [hx, hr, Option.some.injEq] at h
+        rcases List.mem_cons.mp he with rfl | hin
+        · exact ⟨a, [], r, hx, by simp [← h]⟩
+        · obtain ⟨b, pre, post, hb, ho⟩ := ih r hr hin
+          exact ⟨b, a ++ pre, post, hb, by rw [← h, ho]; simp [List.append_assoc]⟩
+
+/-- **`$` on a directory carries every item's information**: with abstracts left to the protocols that show them
+    (`abstract_headers` off, `abstract_entries = never`), the Gopher+ directory listing of any entry list contains, for
+    each entry, exactly the blocks an `!` request for that entry is answered with (same `gplusBlocks`, with the
+    modification date the directory view adds) -/
+theorem dollar_listing_contains_item_info (c : RenderCfg) (hh : c.abstractHeaders = false)
+    (ha : c.abstractEntries = lit "never") (self : Entry) (es : List Entry) (out : Str)
+    (h : listingBody c .gplusDir true self es = some out) (e : Entry) (he : e ∈ es) :
+    ∃ b pre post, gplusBlocks c.srv c.admin (e.mtime.bind c.modDate) e = some b ∧ out = pre ++ b ++ post := by
+  unfold listingBody at h
+  have hd : doAbstracts c.abstractEntries (View.gplusDir.groksAbstract || true) = false := by
+    rw [ha]; decide
+  simp only [hh, hd, if_true, Pyg.Props.C06.walk_without_abstracts] at h
+  obtain ⟨b, pre, post, hb, ho⟩ := renderSeq_gplus_mem c _ _ out h (gplusFix e) (List.mem_map.mpr ⟨e, he, rfl⟩)
+  have hm : (gplusFix e).mtime = e.mtime := by unfold gplusFix; split <;> rfl
+  rw [gplusBlocks_fix, hm] at hb
+  exact ⟨b, pre, post, hb, ho⟩
 
 end Pyg.Props.C15
